@@ -189,7 +189,7 @@ func (s *Schema) ValidateData(data []byte) error {
 	)
 
 	if !bytes.HasPrefix(bytes.TrimSpace(data), []byte{'{'}) {
-		err = yaml.Unmarshal(data, &any)
+		err = yaml.Unmarshal(data, &any, useNumber)
 		if err != nil {
 			return fmt.Errorf("failed to YAML unmarshal data for validation: %w", err)
 		}
@@ -207,6 +207,12 @@ func (s *Schema) ValidateData(data []byte) error {
 	}
 
 	return s.validateContents(any)
+}
+
+// useNumber keeps numbers intact instead of converting them to float64.
+func useNumber(d *json.Decoder) *json.Decoder {
+	d.UseNumber()
+	return d
 }
 
 // ValidateFile validates the given JSON file against the schema.
